@@ -183,6 +183,27 @@ fn interop_bulk<V: Fv, R: RefImpl>(seed: u64, count: usize, heavy: &mut Shards, 
     light.emit(cross("bulk-we-verify-ref-signatures", V::N, f2 == 0, &format!("{} of {} rejected", f2, count)));
 }
 
+/// Signatures that went through the signer's retry paths (forced through the fault taps) must interoperate too.
+fn interop_retry_paths<V: Fv, R: RefImpl>(seed: u64, heavy: &mut Shards, light: &mut Shards) {
+    use falcon_rust::verif::Plan;
+    let mut rng = rng_for(seed, &format!("c16-retry-{}", V::N));
+    let (sk, pk) = V::keygen(rng.gen());
+    let pkb = V::pk_to_bytes(&pk);
+    for (name, np, cp) in [("norm-retry", vec![true, false], vec![false]), ("compress-retry", vec![false, false], vec![true, false]),
+                           ("both-retries", vec![true, false, true, false], vec![true, true, false])] {
+        let msg = format!("retry path {}", name).into_bytes();
+        let plan = Plan { record: false, force_norm_reject: np, force_compress_fail: cp, ..Default::default() };
+        let (sigb, _, _) = crate::d_sign::sign_with_plan::<V>(&msg, &sk, plan);
+        match sigb {
+            Some(b) => {
+                light.emit(cross(&format!("ref-verifies-our-signature-after-{}", name), V::N, R::verify(&msg, &to_ref_sig(&b), &pkb), ""));
+                heavy.emit(honest_event::<V>(&msg, &b, &pkb, &format!("ours-{}", name)));
+            }
+            None => light.emit(cross(&format!("sign-returns-after-{}", name), V::N, false, "")),
+        }
+    }
+}
+
 pub fn c16(args: &Args) {
     let seed = args.num("--seed", 1);
     let thorough = args.thorough();
@@ -191,6 +212,8 @@ pub fn c16(args: &Args) {
     let mut light = Shards::create(&dir, "cross", 1);
     interop_variant::<V512, Ref512>(seed, if thorough { 10 } else { 2 }, if thorough { 10 } else { 3 }, &mut heavy, &mut light);
     interop_variant::<V1024, Ref1024>(seed, if thorough { 4 } else { 1 }, if thorough { 8 } else { 3 }, &mut heavy, &mut light);
+    interop_retry_paths::<V512, Ref512>(seed, &mut heavy, &mut light);
+    interop_retry_paths::<V1024, Ref1024>(seed, &mut heavy, &mut light);
     interop_bulk::<V512, Ref512>(seed, if thorough { 40000 } else { 3000 }, &mut heavy, &mut light);
     interop_bulk::<V1024, Ref1024>(seed, if thorough { 10000 } else { 1000 }, &mut heavy, &mut light);
     println!("heavy {} light {}", heavy.finish(), light.finish());
